@@ -406,11 +406,12 @@ def binding_parts(ctx, seed):
         for n, uses in ((2, u2), (3, u3)):
             orders = list(itertools.permutations(range(nset), n))
             ro = seed % len(orders)
-            # the deep 2-instance histories of the quick tier of the plain flavour use one plain and the vectorised job
-            jj = jobs if (ctx.thorough or n == 3 or flavour != "plain") else [j for j in jobs if j in ("single", "many")]
+            # the (deeper) histories of the quick tier of the plain flavour use one plain and the vectorised job;
+            # the second plain job is exercised by the other two flavours (jenv) and by the thorough tier
+            jj = jobs if (ctx.thorough or flavour != "plain") else [j for j in jobs if j in ("single", "many")]
             for order in orders[ro:] + orders[:ro]:
                 parts.append(("A", flavour, n, order, uses, u3, jj))
-        bounds[flavour] = {"instances": "2..3 of %d settings" % nset, "max_uses": {"2 instances": u2, "3 instances": u3}, "jobs": list(fl["jobs"])}
+        bounds[flavour] = {"instances": "2..3 of %d settings" % nset, "max_uses": {"2 instances": u2, "3 instances": u3}, "jobs": list(fl["jobs"]) if (ctx.thorough or flavour != "plain") else ["single", "many"]}
     ctx.bound["A"] = bounds
     return parts
 
@@ -857,7 +858,7 @@ def enumerate_specs(ctx, seed):
         masks = naming_masks(n, full=(ctx.thorough and n <= 3) or n <= 2)
         rr = rets
         if not ctx.thorough and n == 3:
-            masks = [masks[0], masks[2]]  # all named, alternating (none named: lengths 1, 2 and 4)
+            masks = [masks[0]]  # all named (other masks: lengths 1, 2 and 4)
             rr = [x for x in rets if x != ("b.bin",)]  # b.bin alone mirrors a.dat alone
         for cmds in itertools.product(kinds, repeat=n):
             specs.extend(specs_for(cmds, masks, rr))
